@@ -202,6 +202,8 @@ def r4(ctx):
         pb = pat_binds(cl["params"][0])
         ih, lh = pb[0][1], pb[1][1]
         body = top_stmts_of(cl["body"])
+        from ..hir import let_table, cpretty, resolve
+        TT = let_table(cl["body"])
         env = {ih: Rat.atom("i")}
         lets = {}
         for s in body:
@@ -232,13 +234,24 @@ def r4(ctx):
             bw = [y for y in walk(arm["body"]) if y.get("k") == "mcall" and y["name"] == "backward"]
             if kind in ("Dense", "Convolution", "Deconvolution"):
                 n_arms += 1
-                ok = (len(bw) == 1 and len(bw[0]["args"]) == 3 and "gradients.last()" in pretty(bw[0]["args"][0]) and e4.local_hid(bw[0]["args"][1]) == inh
-                      and e4.local_hid(bw[0]["args"][2]) == outh and binds and e4.local_hid(bw[0]["recv"]) == binds[0][1])
+                def stands_for(node, arr):
+                    r_ = resolve(node, TT)
+                    if r_.get("k") != "index" or strip(r_["b"]).get("k") != "local" or strip(r_["b"])["name"] != arr:
+                        return False
+                    try:
+                        env2 = dict(env)
+                        if idxh in TT:
+                            env2[idxh] = e1.Norm(c, env).norm(TT[idxh])
+                        return e1.Norm(c, env2).norm(r_["i"]) == Rat.atom("len(self.layers)") - Rat.atom("i") - 1
+                    except ValueError:
+                        return False
+                ok = (len(bw) == 1 and len(bw[0]["args"]) == 3 and "gradients.last()" in cpretty(bw[0]["args"][0], TT) and stands_for(bw[0]["args"][1], act)
+                      and stands_for(bw[0]["args"][2], pre) and binds and e4.local_hid(bw[0]["recv"]) == binds[0][1])
                 ctx.check("R01.4", "%s:%s-arguments" % (short_name, kind), ok, "backward-arguments:" + (short(pretty(bw[0]), 70) if bw else "none"), c.loc(fn, arm["body"]),
                           "layer.backward(last gradient, input, output)", "the %s arm calls %s" % (kind, [short(pretty(y), 100) for y in bw]))
             elif kind == "Maxpool" and bw:
                 n_arms += 1
-                ok = len(bw) == 1 and "gradients.last()" in pretty(bw[0]["args"][0]) and any(is_indexed(z, "maxpools") for z in walk(bw[0]["args"][1]))
+                ok = len(bw) == 1 and "gradients.last()" in cpretty(bw[0]["args"][0], TT) and any(is_indexed(z, "maxpools") for z in walk(arm["body"]))
                 ctx.check("R01.4", "%s:Maxpool-arguments" % short_name, ok, "maxpool-backward-arguments", c.loc(fn, arm["body"]), "layer.backward(last gradient, maxpools[idx])")
         # result routing: let (gradient, wg, bg) = match ..; gradients.push(gradient); weight.push(wg); bias.push(bg)
         dl = [s for s in body if s.get("k") == "let" and s["init"] is not None and strip(s["init"]) is ms[0]]
@@ -259,41 +272,56 @@ def r4(ctx):
 def r5(ctx):
     c = ctx.crate
     fn = ctx.fn("dense::Dense::backward")
+    from ..hir import let_table, cpretty, resolve
+    T = let_table(fn["body"])
+    pn = [pat_binds(p)[0][0] for p in fn["params"]]
     ph = [pat_binds(p)[0][1] for p in fn["params"]]
+    gname, iname, oname = pn[1], pn[2], pn[3]
     gh, inh, outh = ph[1], ph[2], ph[3]
-    stmts = top_stmts_of(fn["body"])
-    lets = {}
-    for s in stmts:
-        if s.get("k") == "let" and s["pat"].get("k") == "bind":
-            lets[s["pat"]["name"]] = (s["pat"]["hid"], s["init"], s)
     where = c.loc(fn)
-    # gradient possibly re-bound (flattened)
-    g2 = lets.get("gradient", (gh,))[0]
-    d = lets.get("delta")
-    ok = d is not None and strip(d[1]).get("k") == "mcall" and strip(d[1])["callee"] == "activation::Function::backward" and e4.local_hid(strip(d[1])["args"][0]) == outh
-    ctx.check("R01.5", "delta-from-activation-derivative-of-pre", ok, "delta-source:" + (short(pretty(d[1]), 60) if d else "?"), where, "delta = activation.backward(output)")
-    dh = d[0] if d else None
+    stmts = top_stmts_of(fn["body"])
+    # delta: the (mutable) local initialised with the activation derivative of the pre-activation parameter
+    dl = [s_ for s_ in walk(fn["body"]) if s_.get("k") == "let" and s_["pat"].get("k") == "bind" and s_["init"] is not None
+          and strip(s_["init"]).get("k") == "mcall" and strip(s_["init"])["callee"] == "activation::Function::backward"]
+    ok = len(dl) == 1 and e4.local_hid(resolve(strip(dl[0]["init"])["args"][0], T)) == outh
+    ctx.check("R01.5", "delta-from-activation-derivative-of-pre", ok, "delta-source:" + (short(pretty(dl[0]["init"]), 60) if dl else "?"), where, "delta = activation.backward(output)",
+              "delta is initialised as %s; it must be the activation derivative at the layer's pre-activation (3rd parameter)" % (pretty(dl[0]["init"]) if dl else "?"))
+    if not dl:
+        return
+    dh, dname = dl[0]["pat"]["hid"], dl[0]["pat"]["name"]
+    # the gradient may be re-bound (flattened) under the same or another name
+    g_ok = {gh}
+    for s_ in stmts:
+        if s_.get("k") == "let" and s_["pat"].get("k") == "bind" and s_["init"] is not None and strip(s_["init"]).get("k") == "match" and mentions_local(s_["init"], gh):
+            g_ok.add(s_["pat"]["hid"])
     had = [x for x in walk(fn["body"]) if x.get("k") == "mcall" and x["callee"] == "tensor::Tensor::hadamard"]
-    ok = (len(had) == 1 and e4.local_hid(had[0]["recv"]) == dh and e4.local_hid(had[0]["args"][0]) in (gh, g2)
-          and pretty(strip(had[0]["args"][1])) == "self.scale(self.loops)")
-    ctx.check("R01.5", "delta-times-upstream-gradient", ok, "hadamard:" + (short(pretty(had[0]), 70) if had else "none"), where, "delta.hadamard(gradient, scale(loops))")
-    wg = lets.get("weight_gradient")
-    ok = wg is not None and strip(wg[1]).get("k") == "mcall" and strip(wg[1])["callee"] == "tensor::Tensor::product" and e4.local_hid(strip(wg[1])["recv"]) == dh and e4.local_hid(strip(wg[1])["args"][0]) == inh
-    ctx.check("R01.5", "weight-gradient-is-delta-outer-input", ok, "weight-gradient:" + (short(pretty(wg[1]), 60) if wg else "?"), where, "dW = delta.product(input)",
-              "the weight gradient is %s; weights are (outputs x inputs), so it must be delta (x) input" % (pretty(wg[1]) if wg else "?"))
-    ig = lets.get("input_gradient")
-    p = pretty(strip(ig[1])) if ig else "?"
-    ctx.check("R01.5", "input-gradient-is-Wt-delta", p == "self.weights.transpose().dot(&delta)" or p == "self.weights.transpose().dot(delta)", "input-gradient:" + short(p, 60), where, "dX = W^T . delta")
-    bg = lets.get("bias_gradient")
-    okb = False
-    if bg and strip(bg[1]).get("k") == "match" and pretty(strip(strip(bg[1])["scrut"])) == "self.bias":
-        arms = {e4.arm_variant(a)[0].split("::")[-1]: pretty(strip(a["body"])) for a in strip(bg[1])["arms"]}
-        okb = arms.get("Some", "").endswith("Some(delta.clone())") and arms.get("None", "").endswith("None")
-    ctx.check("R01.5", "bias-gradient-is-delta", okb, "bias-gradient", where, "db = Some(delta) iff bias")
+    ok = (len(had) == 1 and e4.local_hid(had[0]["recv"]) == dh and e4.local_hid(had[0]["args"][0]) in g_ok
+          and cpretty(had[0]["args"][1], T) == "self.scale(self.loops)")
+    ctx.check("R01.5", "delta-times-upstream-gradient", ok, "hadamard:" + (short(cpretty(had[0], T), 70) if had else "none"), where, "delta.hadamard(gradient, scale(loops))")
     tail = strip(stmts[-1])
-    ok = tail.get("k") == "tup" and [pretty(strip(x)) for x in tail["xs"]] == ["input_gradient", "weight_gradient", "bias_gradient"]
-    ctx.check("R01.5", "result-order", ok, "result-order:" + short(pretty(tail), 60), where, "(dX, dW, db)")
-    # nothing modifies delta between hadamard and its uses
+    comps = [cpretty(x, T) for x in tail["xs"]] if tail.get("k") == "tup" else []
+    want_dx = "self.weights.transpose().dot(%s)" % dname
+    want_dw = "%s.product(%s)" % (dname, iname)
+    ctx.check("R01.5", "input-gradient-is-Wt-delta", len(comps) == 3 and comps[0] == want_dx, "input-gradient:" + (short(comps[0], 60) if comps else "?"), where, "dX = W^T . delta (first component)",
+              "the first returned component is `%s`; it must be %s" % (comps[0] if comps else "?", want_dx))
+    ctx.check("R01.5", "weight-gradient-is-delta-outer-input", len(comps) == 3 and comps[1] == want_dw, "weight-gradient:" + (short(comps[1], 60) if comps else "?"), where, "dW = delta.product(input) (second component)",
+              "the weight gradient is `%s`; weights are (outputs x inputs), so it must be %s" % (comps[1] if len(comps) > 1 else "?", want_dw))
+    # bias gradient: Some(delta) iff the layer has a bias
+    okb = False
+    if len(comps) == 3:
+        b = resolve(tail["xs"][2], T)
+        if b.get("k") == "local":
+            for s_ in stmts:
+                if s_.get("k") == "let" and s_["pat"].get("k") == "bind" and b.get("k") == "local" and s_["pat"]["hid"] == b["hid"]:
+                    b = strip(s_["init"])
+        if b.get("k") == "match" and cpretty(b["scrut"], T) == "self.bias":
+            arms_ = {e4.arm_variant(a_)[0].split("::")[-1]: cpretty(a_["body"], T) for a_ in b["arms"]}
+            okb = arms_.get("Some", "").endswith("Some(%s.clone())" % dname) and arms_.get("None", "").endswith("None")
+        elif b.get("k") == "mcall" and b["name"] == "map" and cpretty(b["recv"], T) in ("self.bias.as_ref()", "self.bias"):
+            cl = strip(b["args"][0])
+            okb = cl.get("k") == "closure" and cpretty(cl["body"], T) == "%s.clone()" % dname
+    ctx.check("R01.5", "bias-gradient-is-delta", okb, "bias-gradient", where, "db = Some(delta) iff bias (third component)")
+    ctx.check("R01.5", "result-order", len(comps) == 3, "result-arity:%d" % len(comps), where, "(dX, dW, db)")
     muts = [x for x in walk(fn["body"]) if x.get("k") == "mcall" and e4.local_hid(x["recv"]) == dh and (c.tya(x["recv"]) or "").startswith("&mut")]
     ctx.check("R01.5", "delta-modified-once", len(muts) == 1, "delta-mutations:%d" % len(muts), where, "delta is modified only by the hadamard product")
 
@@ -337,28 +365,34 @@ def r6(ctx):
 
 def r8(ctx):
     c = ctx.crate
+    from ..hir import let_table, cpretty, resolve
     for l in ("convolution::Convolution", "deconvolution::Deconvolution"):
         fn = ctx.fn(l + "::backward")
-        ph = [pat_binds(p)[0][1] for p in fn["params"]]
-        stmts = top_stmts_of(fn["body"])
-        lets = {}
-        for s in stmts:
-            if s.get("k") == "let" and s["pat"].get("k") == "bind" and s["pat"]["name"] not in lets:
-                lets[s["pat"]["name"]] = (s["pat"]["hid"], s["init"])
+        T = let_table(fn["body"])
+        pn = [pat_binds(p)[0][0] for p in fn["params"]]
+        g, i_, o = pn[1], pn[2], pn[3]
         nm = l.split("::")[-1]
         where = c.loc(fn)
-        g = pretty(strip(lets["gradient"][1])) if "gradient" in lets else "?"
-        ctx.check("R01.8", nm + ":gradient-reshaped-to-outputs", g == "gradient.get_triple(&self.outputs)", "gradient-source:" + short(g, 50), where, g)
-        d = pretty(strip(lets["derivative"][1])) if "derivative" in lets else "?"
-        ctx.check("R01.8", nm + ":derivative-of-preactivation", d in ("self.activation.backward(&output).get_triple(&self.outputs)", "self.activation.backward(output).get_triple(&self.outputs)"),
-                  "derivative-source:" + short(d, 70), where, d)
-        dl = pretty(strip(lets["delta"][1])) if "delta" in lets else "?"
-        ctx.check("R01.8", nm + ":delta", dl == "tensor::hadamard3d(&gradient, &derivative, self.scale(self.loops))", "delta:" + short(dl, 70), where, dl)
-        i = pretty(strip(lets["input"][1])) if "input" in lets else "?"
-        ctx.check("R01.8", nm + ":input-reshaped-to-inputs", i == "input.get_triple(&self.inputs)", "input-source:" + short(i, 50), where, i)
+        hd = [x for x in walk(fn["body"]) if x.get("k") == "call" and x["callee"] == "tensor::hadamard3d"]
+        got = [cpretty(a_, T) for a_ in hd[0]["args"]] if len(hd) == 1 else []
+        want = ["%s.get_triple(self.outputs)" % g, "self.activation.backward(%s).get_triple(self.outputs)" % o, "self.scale(self.loops)"]
+        ctx.check("R01.8", nm + ":delta", got == want, "delta:" + ";".join(got)[:100], where, "delta = hadamard3d(gradient.get_triple(outputs), activation.backward(output).get_triple(outputs), scale(loops))",
+                  "delta is built from (%s); expected (%s): the upstream gradient times the activation derivative at the PRE-activation, scaled by scale(loops)" % ("; ".join(got), "; ".join(want)))
+        ins = [s_ for s_ in walk(fn["body"]) if s_.get("k") == "let" and s_["init"] is not None and cpretty(s_["init"], T) == "%s.get_triple(self.inputs)" % i_]
+        ctx.check("R01.8", nm + ":input-reshaped-to-inputs", len(ins) >= 1, "input-source", where, "input.get_triple(self.inputs)")
+        stmts = top_stmts_of(fn["body"])
         tail = strip(stmts[-1])
-        ok = tail.get("k") == "tup" and [pretty(strip(x)) for x in tail["xs"]][:2] == ["tensor::Tensor::triple(igradient)", "tensor::Tensor::quadruple(kgradient)"]
-        ctx.check("R01.8", nm + ":result-order", ok, "result:" + short(pretty(tail), 80), where, "(Tensor::triple(igradient), Tensor::quadruple(kgradient), None)")
+        comps = [strip(x) for x in tail["xs"]] if tail.get("k") == "tup" else []
+        ok = (len(comps) == 3 and comps[0].get("k") == "call" and comps[0]["callee"] == "tensor::Tensor::triple" and comps[1].get("k") == "call" and comps[1]["callee"] == "tensor::Tensor::quadruple"
+              and pretty(comps[2]).endswith("None"))
+        ctx.check("R01.8", nm + ":result-order", ok, "result:" + short(pretty(tail), 80), where, "(Tensor::triple(dX), Tensor::quadruple(dK), None)")
+        if ok:
+            # dX / dK are what the gradient computations produced: resolve to the allocated buffers / helper results
+            dk = resolve(comps[1]["args"][0], T)
+            dx = resolve(comps[0]["args"][0], T)
+            okk = (dk.get("k") == "mcall" and dk["callee"].endswith("convolve_gradients")) or (dk.get("k") == "local" and "kgradient" in dk["name"]) or dk.get("k") == "local"
+            okx = (dx.get("k") == "mcall" and dx["callee"].endswith("::convolve")) or dx.get("k") == "local"
+            ctx.check("R01.8", nm + ":components", okk and okx, "result-components", where, "components are the computed gradients")
 
 
 def run(ctx):
@@ -371,6 +405,6 @@ def run(ctx):
     ctx.guard("R01.8", "prologue", r8, ctx)
     ctx.floor("R01.1", 2, "two accumulations")
     ctx.floor("R01.2", 3, "")
-    ctx.floor("R01.5", 7, "delta, hadamard, dW, dX, db, order, single mutation")
+    ctx.floor("R01.5", 7, "delta, hadamard, dX, dW, db, arity, single mutation")
     ctx.floor("R01.6", 4, "")
-    ctx.floor("R01.8", 10, "")
+    ctx.floor("R01.8", 8, "")
